@@ -402,7 +402,7 @@ def run_check(tier, seed):
         'host model in Model/Seal.v (pwrite ignores the offset under O_APPEND, O_TRUNC truncates on open, linux/ext4 fallocate modes, s_maxbytes): validated by the unsealed runs of the tie on this host, trusted elsewhere; the theorems only use "fallocate inside the file keeps its size"',
         'props/c16.py FuseClient (hand-written FUSE encoder/decoder) and os.stat for the observed sizes',
     ]
-    ev.assumptions = ['server runs as root (O_TRUNC needs no write permission bits)', 'O_ASYNC not used in flag words; flag bits other than access mode / O_TRUNC / O_APPEND / O_EXCL are outside the Coq model (swept on the real code, judged by the predicate)',
+    ev.assumptions = ['server runs as root (O_TRUNC needs no write permission bits)', 'flag words are modelled whole (openat_word / setfl_word / host_open / host_setfl, linux >= 6.4 semantics for O_PATH, O_DIRECTORY, __O_TMPFILE); the data path of words with O_DIRECT depends on the host file system and is judged by the predicate only (except with allow_direct_io=false)',
                       'only regular files that exist before the first request are observed']
     findings, broken = [], []
     rng = random.Random(seed)
